@@ -266,6 +266,15 @@ def gen_map(rng, size: str = 'normal', strata: bool = True) -> Tuple[Any, Dict[s
     # worldspawn keys + world brushes
     for _ in range(rng.randint(0, 3)):
         vmf.spawn[rng.choice(('skyname', 'detailmaterial', 'maxpropscreenwidth', ident(rng)))] = hostile(rng, 12)
+    # worldspawn is an entity like any other: comments, editor colour and outputs apply to it too
+    if rng.random() < 0.4:
+        vmf.spawn.comments = hostile(rng, 16) or 'world note'
+    if rng.random() < 0.3:
+        from srctools.math import Vec as _Vec
+        vmf.spawn.editor_color = _Vec(rng.randrange(256), rng.randrange(256), rng.randrange(256))
+    if rng.random() < 0.25:
+        for _ in range(rng.randint(1, 2)):
+            vmf.spawn.add_out(gen_output(rng, None))
     n_brush = {'small': rng.randint(0, 2), 'normal': rng.randint(0, 4), 'big': rng.randint(2, 10)}[size]
     for _ in range(n_brush):
         s = gen_solid(rng, vmf, features)
